@@ -92,6 +92,8 @@ class TargetInfo:
         self.expected = None  # numpy array: expected final content (None if rejected/unknown)
         self.digest_before = None
         self.desc = None
+        self.exact = True
+        self.lowprec = False
 
 
 def materialise_target(t, src_arr, src_np, sim, k):
